@@ -405,7 +405,7 @@ pub fn judge(
                         format!("result:{}", other.class()),
                         Some(Failure {
                             class: format!("result:{}", other.class()),
-                            detail: format!("{other:?}"),
+                            detail: format!("{other:?}").chars().take(600).collect(),
                             location: None,
                         }),
                     ),
@@ -1111,6 +1111,27 @@ pub fn systematic_cases() -> Vec<Case> {
             },
         });
     }
+    // Non-ASCII text at every byte offset: whatever fixed-size pieces the code under test cuts its
+    // input or the formatter's output into, a cut lands inside a character.
+    for pad in 0..3u32 {
+        for (chunk, read_max) in [(65536usize, 0usize), (4096, 8192)] {
+            let mut options = Opts::plain();
+            options.rustfmt = true;
+            out.push(Case {
+                later: vec![],
+                job: Job {
+                    shader: ShaderRef::Dense { kb: 200, pad },
+                    include_path: None,
+                    options,
+                },
+                proc: ProcPlan {
+                    chunk,
+                    read_max,
+                    ..ProcPlan::well_behaved()
+                },
+            });
+        }
+    }
     for shader in &shaders {
         for (spawn, script) in &scripts {
             for (op_cost, parent_costs, lead) in &timings {
@@ -1326,6 +1347,13 @@ fn real_rustfmt_block(cache: &RefCache, limit_opts: usize) -> RealFmtResult {
             ..Opts::plain()
         },
     });
+    for pad in 0..3 {
+        jobs.push(Job {
+            shader: ShaderRef::Dense { kb: 200, pad },
+            include_path: None,
+            options: Opts::plain(),
+        });
+    }
     jobs.push(Job {
         shader: ShaderRef::Inline {
             source: "override ova: f32 = 1.0;\noverride ovb: u32 = 2u;\noverride ovc: bool = true;\n@fragment fn fs_main() {}".into(),
@@ -1397,6 +1425,16 @@ fn real_rustfmt_job(exe: &std::path::Path, job: &Job) -> (String, String, bool) 
     if let Some(mut stdin) = child.stdin.take() {
         let _ = stdin.write_all(serde_json::to_string(job).unwrap().as_bytes());
     }
+    // drain the report while the child runs (never wait for a process whose pipe nobody reads)
+    let stdout = child.stdout.take();
+    let reader = std::thread::spawn(move || {
+        let mut out = String::new();
+        if let Some(mut stdout) = stdout {
+            use std::io::Read as _;
+            let _ = stdout.read_to_string(&mut out);
+        }
+        out
+    });
     let start = std::time::Instant::now();
     loop {
         match child.try_wait() {
@@ -1416,11 +1454,7 @@ fn real_rustfmt_job(exe: &std::path::Path, job: &Job) -> (String, String, bool) 
             Err(e) => return ("harness".into(), format!("wait: {e}"), false),
         }
     }
-    let mut out = String::new();
-    if let Some(mut stdout) = child.stdout.take() {
-        use std::io::Read as _;
-        let _ = stdout.read_to_string(&mut out);
-    }
+    let out = reader.join().unwrap_or_default();
     match serde_json::from_str::<serde_json::Value>(&out) {
         Ok(v) => (
             v["class"].as_str().unwrap_or("harness").to_string(),
@@ -1454,10 +1488,9 @@ pub fn real_main() -> i32 {
     }));
     let formatted = matches!(&result, Ok(Outcome::Ok { text }) if text.contains("\n    "));
     let (class, failure) = judge(result, &reference, None);
-    println!(
-        "{}",
-        json!({"class": class, "detail": failure.map(|f| f.detail).unwrap_or_default(), "formatted": formatted})
-    );
+    // keep the report small: the parent reads it only after this process has exited
+    let detail: String = failure.map(|f| f.detail).unwrap_or_default().chars().take(400).collect();
+    println!("{}", json!({"class": class, "detail": detail, "formatted": formatted}));
     0
 }
 
